@@ -16,6 +16,10 @@ function key(k, r) {
   case "y1": return sym.y1 || (sym.y1 = Symbol("y1"));
   case "big": return r === "a" ? 9007199254740992 : 9007199254740991 + 1;
   case "u": return undefined;
+  // keys whose 64-bit hashes collide with an integer key: the hash of a float is its bit pattern, the hash of an integer the integer
+  case "c3": return r === "a" ? 5e-324 : Number.MIN_VALUE;            // bit pattern 1: the bucket of the key 1
+  case "c2": return r === "a" ? 1e-323 : 5e-324 * 2;                  // bit pattern 2
+  case "n2": return r === "a" ? 2 : parseFloat("2");
   }
   throw new Error("unknown key " + k);
 }
@@ -25,6 +29,9 @@ function kname(x) {
     if (x !== x) return "nan";
     if (x === 0) return Object.is(x, -0) ? "-z" : "z";   // -0 must have been normalised to +0
     if (x === 1) return "n1";
+    if (x === 2) return "n2";
+    if (x === 5e-324) return "c3";
+    if (x === 1e-323) return "c2";
     if (x === 9007199254740992) return "big";
   }
   if (x === "a") return "s1";
